@@ -10,6 +10,8 @@ import (
 const vf = "test.tf"
 
 // verifSeedDecoder: a real Decoder/PathDecoder over the stretched seed.
+var _ = verifSeedDecoder
+
 func verifSeedDecoder(i int) (*PathDecoder, verifSeed) {
 	s := verifSeedList()[i]
 	D := verifBound("D", 2, 6)
@@ -30,55 +32,67 @@ func verifSeedDecoder(i int) (*PathDecoder, verifSeed) {
 }
 
 func VerifP_C01C02C04C05C12_Hover_N() int { return len(verifSeedList()) }
+func VerifP_C01C02C04C05C12_Hover_Name(i int) string { return verifSeedList()[i].name }
 func VerifP_C01C02C04C05C12_Hover(i int) {
 	d, _ := verifSeedDecoder(i)
 	pos := verifAnyPos(vf)
-	verifFreeze()
-	hd, err := d.HoverAtPos(context.Background(), vf, pos)
-	if err == nil && hd != nil {
-		verifAssert(hd.Content.Value != "", "C12:content-nonempty")
-		verifAssert(verifRealRange(vf, hd.Range), "C02:hover-range")
-		verifAssert(verifAnd(hd.Range.Start.Byte <= pos.Byte, pos.Byte <= hd.Range.End.Byte), "C12:range-contains-cursor")
-	}
-	verifNoWrites("C04/C05:hover-writes", false)
+	verifFreeze(d.pathCtx)
+	verifQuery(func() {
+		hd, err := d.HoverAtPos(context.Background(), vf, pos)
+		if err == nil && hd != nil {
+			verifAssert(hd.Content.Value != "", "C12:content-nonempty")
+			verifAssert(verifRealRange(vf, hd.Range), "C02:hover-range"+verifCursorTag())
+			verifAssert(verifAnd(hd.Range.Start.Byte <= pos.Byte, pos.Byte <= hd.Range.End.Byte), "C12:range-contains-cursor"+verifCursorTag())
+		}
+	})
+	verifNoWrites("C04:hover-writes", true)
+	verifNoWrites("C05:hover-writes", false)
 	verifReach("end")
 }
 
 func VerifP_C01C02C04C05C06_Completion_N() int { return len(verifSeedList()) }
+func VerifP_C01C02C04C05C06_Completion_Name(i int) string { return verifSeedList()[i].name }
 func VerifP_C01C02C04C05C06_Completion(i int) {
 	d, _ := verifSeedDecoder(i)
 	pos := verifAnyPos(vf)
-	verifFreeze()
-	cs, err := d.CompletionAtPos(context.Background(), vf, pos)
-	if err == nil {
-		gCheckCandidates(cs, pos)
-	}
-	verifNoWrites("C04/C05:completion-writes", false)
+	verifFreeze(d.pathCtx)
+	verifQuery(func() {
+		cs, err := d.CompletionAtPos(context.Background(), vf, pos)
+		if err == nil {
+			gCheckCandidates(cs, pos)
+		}
+	})
+	verifNoWrites("C04:completion-writes", true)
+	verifNoWrites("C05:completion-writes", false)
 	verifReach("end")
 }
 
 func VerifP_C01C02C04C05C13_SemTok_N() int { return len(verifSeedList()) }
+func VerifP_C01C02C04C05C13_SemTok_Name(i int) string { return verifSeedList()[i].name }
 func VerifP_C01C02C04C05C13_SemTok(i int) {
 	d, _ := verifSeedDecoder(i)
-	verifFreeze()
-	toks, err := d.SemanticTokensInFile(context.Background(), vf)
-	if err == nil {
-		for k, t := range toks {
-			verifAssert(verifRealRange(vf, t.Range), "C02:token-range")
-			verifAssert(t.Range.Start.Byte < t.Range.End.Byte, "C13:token-nonempty")
-			if k > 0 {
-				verifAssert(toks[k-1].Range.End.Byte <= t.Range.Start.Byte, "C13:tokens-ordered-disjoint")
-			}
-			known := false
-			for _, st := range lang.SupportedSemanticTokenTypes {
-				if st == t.Type {
-					known = true
+	verifFreeze(d.pathCtx)
+	verifQuery(func() {
+		toks, err := d.SemanticTokensInFile(context.Background(), vf)
+		if err == nil {
+			for k, t := range toks {
+				verifAssert(verifRealRange(vf, t.Range), "C02:token-range")
+				verifAssert(t.Range.Start.Byte < t.Range.End.Byte, "C13:token-nonempty")
+				if k > 0 {
+					verifAssert(toks[k-1].Range.End.Byte <= t.Range.Start.Byte, "C13:tokens-ordered-disjoint")
 				}
+				known := false
+				for _, st := range lang.SupportedSemanticTokenTypes {
+					if st == t.Type {
+						known = true
+					}
+				}
+				verifAssert(known, "C13:token-type-advertised")
 			}
-			verifAssert(known, "C13:token-type-advertised")
 		}
-	}
-	verifNoWrites("C04/C05:semtok-writes", false)
+	})
+	verifNoWrites("C04:semtok-writes", true)
+	verifNoWrites("C05:semtok-writes", false)
 	verifReach("end")
 }
 
@@ -95,95 +109,119 @@ func verifCheckSymbols(syms []Symbol, parent *hcl.Range) {
 }
 
 func VerifP_C01C02C04C05C14_Symbols_N() int { return len(verifSeedList()) }
+func VerifP_C01C02C04C05C14_Symbols_Name(i int) string { return verifSeedList()[i].name }
 func VerifP_C01C02C04C05C14_Symbols(i int) {
 	d, _ := verifSeedDecoder(i)
-	verifFreeze()
-	syms, err := d.SymbolsInFile(vf)
-	if err == nil {
-		verifCheckSymbols(syms, nil)
-		for k := 1; k < len(syms); k++ {
-			verifAssert(syms[k-1].Range().Start.Byte <= syms[k].Range().Start.Byte, "C14:source-order")
+	verifFreeze(d.pathCtx)
+	verifQuery(func() {
+		syms, err := d.SymbolsInFile(vf)
+		if err == nil {
+			verifCheckSymbols(syms, nil)
+			for k := 1; k < len(syms); k++ {
+				verifAssert(syms[k-1].Range().Start.Byte <= syms[k].Range().Start.Byte, "C14:source-order")
+			}
 		}
-	}
-	verifNoWrites("C04/C05:symbols-writes", false)
+	})
+	verifNoWrites("C04:symbols-writes", true)
+	verifNoWrites("C05:symbols-writes", false)
 	verifReach("end")
 }
 
 func VerifP_C01C02C04C05C15_Validate_N() int { return len(verifSeedList()) }
+func VerifP_C01C02C04C05C15_Validate_Name(i int) string { return verifSeedList()[i].name }
 func VerifP_C01C02C04C05C15_Validate(i int) {
 	d, _ := verifSeedDecoder(i)
-	verifFreeze()
-	diags, err := d.ValidateFile(context.Background(), vf)
-	if err == nil {
-		for _, dg := range diags {
-			if dg.Subject != nil {
-				verifAssert(verifRealRange(vf, *dg.Subject), "C02:diagnostic-subject")
+	verifFreeze(d.pathCtx)
+	verifQuery(func() {
+		diags, err := d.ValidateFile(context.Background(), vf)
+		if err == nil {
+			for _, dg := range diags {
+				if dg.Subject != nil {
+					verifAssert(verifRealRange(vf, *dg.Subject), "C02:diagnostic-subject")
+				}
 			}
 		}
-	}
-	verifNoWrites("C04/C05:validate-writes", false)
+	})
+	verifNoWrites("C04:validate-writes", true)
+	verifNoWrites("C05:validate-writes", false)
 	verifReach("end")
 }
 
 func VerifP_C01C02C04C05C09_Targets_N() int { return len(verifSeedList()) }
+func VerifP_C01C02C04C05C09_Targets_Name(i int) string { return verifSeedList()[i].name }
 func VerifP_C01C02C04C05C09_Targets(i int) {
 	d, _ := verifSeedDecoder(i)
-	verifFreeze()
-	ts, err := d.CollectReferenceTargets()
-	if err == nil {
-		for _, t := range ts {
-			if t.RangePtr != nil {
-				verifAssert(verifRealRange(vf, *t.RangePtr), "C02:target-range")
-			}
-			if t.DefRangePtr != nil {
-				verifAssert(verifRealRange(vf, *t.DefRangePtr), "C02:target-defrange")
+	verifFreeze(d.pathCtx)
+	verifQuery(func() {
+		ts, err := d.CollectReferenceTargets()
+		if err == nil {
+			for _, t := range ts {
+				if t.RangePtr != nil {
+					verifAssert(verifRealRange(vf, *t.RangePtr), "C02:target-range")
+				}
+				if t.DefRangePtr != nil {
+					verifAssert(verifRealRange(vf, *t.DefRangePtr), "C02:target-defrange")
+				}
 			}
 		}
-	}
-	verifNoWrites("C04/C05:targets-writes", false)
+	})
+	verifNoWrites("C04:targets-writes", true)
+	verifNoWrites("C05:targets-writes", false)
 	verifReach("end")
 }
 
 func VerifP_C01C02C04C05C10_Origins_N() int { return len(verifSeedList()) }
+func VerifP_C01C02C04C05C10_Origins_Name(i int) string { return verifSeedList()[i].name }
 func VerifP_C01C02C04C05C10_Origins(i int) {
 	d, _ := verifSeedDecoder(i)
-	verifFreeze()
-	os, err := d.CollectReferenceOrigins()
-	if err == nil {
-		for k, o := range os {
-			verifAssert(verifRealRange(vf, o.OriginRange()), "C02:origin-range")
-			if k > 0 {
-				verifAssert(os[k-1].OriginRange().Start.Byte <= o.OriginRange().Start.Byte, "C10:origins-ordered")
+	verifFreeze(d.pathCtx)
+	verifQuery(func() {
+		os, err := d.CollectReferenceOrigins()
+		if err == nil {
+			for k, o := range os {
+				verifAssert(verifRealRange(vf, o.OriginRange()), "C02:origin-range")
+				if k > 0 {
+					verifAssert(os[k-1].OriginRange().Start.Byte <= o.OriginRange().Start.Byte, "C10:origins-ordered")
+				}
 			}
 		}
-	}
-	verifNoWrites("C04/C05:origins-writes", false)
+	})
+	verifNoWrites("C04:origins-writes", true)
+	verifNoWrites("C05:origins-writes", false)
 	verifReach("end")
 }
 
 func VerifP_C01C02C04C05C20_Signature_N() int { return len(verifSeedList()) }
+func VerifP_C01C02C04C05C20_Signature_Name(i int) string { return verifSeedList()[i].name }
 func VerifP_C01C02C04C05C20_Signature(i int) {
 	d, _ := verifSeedDecoder(i)
 	pos := verifAnyPos(vf)
-	verifFreeze()
-	sig, err := d.SignatureAtPos(vf, pos)
-	if err == nil && sig != nil {
-		verifAssert(int(sig.ActiveParameter) < len(sig.Parameters) || len(sig.Parameters) == 0, "C20:active-parameter-valid")
-	}
-	verifNoWrites("C04/C05:signature-writes", false)
+	verifFreeze(d.pathCtx)
+	verifQuery(func() {
+		sig, err := d.SignatureAtPos(vf, pos)
+		if err == nil && sig != nil {
+			verifAssert(int(sig.ActiveParameter) < len(sig.Parameters) || len(sig.Parameters) == 0, "C20:active-parameter-valid")
+		}
+	})
+	verifNoWrites("C04:signature-writes", true)
+	verifNoWrites("C05:signature-writes", false)
 	verifReach("end")
 }
 
 func VerifP_C01C02C04C05C16_Links_N() int { return len(verifSeedList()) }
+func VerifP_C01C02C04C05C16_Links_Name(i int) string { return verifSeedList()[i].name }
 func VerifP_C01C02C04C05C16_Links(i int) {
 	d, _ := verifSeedDecoder(i)
-	verifFreeze()
-	links, err := d.LinksInFile(vf)
-	if err == nil {
-		for _, l := range links {
-			verifAssert(verifRealRange(vf, l.Range), "C02:link-range")
+	verifFreeze(d.pathCtx)
+	verifQuery(func() {
+		links, err := d.LinksInFile(vf)
+		if err == nil {
+			for _, l := range links {
+				verifAssert(verifRealRange(vf, l.Range), "C02:link-range")
+			}
 		}
-	}
-	verifNoWrites("C04/C05:links-writes", false)
+	})
+	verifNoWrites("C04:links-writes", true)
+	verifNoWrites("C05:links-writes", false)
 	verifReach("end")
 }
